@@ -182,7 +182,7 @@ def rule_OD2(rep, prog, q):
                 sample={"pushes": len(pushes), "waits": len(waits)})
     fn = prog.fn("_dispatch_async_and_wait_invoke")
     rep.saw(fn)
-    sig = [i for i in fn.all_insts() if (i.op == "call" and i.callee in ("_dispatch_thread_event_signal", "_dispatch_thread_event_signal_slow")) or
+    sig = [i for i in fn.all_insts() if (i.op == "call" and i.callee in ("_dispatch_thread_event_signal", "_dispatch_thread_event_signal_slow", "_dispatch_event_loop_cancel_waiter")) or
            (i.op == "atomicrmw" and "dte_value" in prog.fields(i))]
     callouts = [i for i in fn.all_insts() if i.op == "call" and i.callee in ("_dispatch_client_callout", "_dispatch_sync_function_invoke_inline")] + \
                [i for i in fn.all_insts() if i.op == "call" and "icallee" in i.d and "dsc_func" in callee_slot(prog, i)]
@@ -191,6 +191,11 @@ def rule_OD2(rep, prog, q):
     rep.require(rid, ok, fn.file, fn.name, "signal-before-callout",
                 "_dispatch_async_and_wait_invoke signals the waiter before the callout ran / before dsc_func was cleared: the sync call would "
                 "return before (or run twice) its work item", sample={"signals": len(sig), "callouts": len(callouts), "clears": len(clears)})
+    # ... and nothing is written to the context after the wake-up: it lives on the stack of the caller that may already have returned
+    late = [st for st in fn.all_insts() if st.op == "store" and st.d.get("ptr") and list(st.d["ptr"].get("base", [])[:2]) == ["a", 0] and any(fn.inst_reaches(s_, st) for s_ in sig)]
+    rep.require(rid, not late, late[0].loc if late else fn.file, fn.name, "context-written-after-wakeup",
+                "_dispatch_async_and_wait_invoke writes %s of the sync context after waking its owner: the context is on the stack of the dispatch_async_and_wait caller, "
+                "which may have returned (or already acted on the stale field)" % (sorted(prog.fields(late[0])) if late else None), sample={"stores_after_signal": len(late)})
 
 
 def rule_WR3(rep, prog):
@@ -277,6 +282,14 @@ def run(rep, tier="quick", srcdir=None, only=None):
     if want("C08-MP2"):
         from . import C08
         C08.rule_MP2(rep, prog)
+    # "memory written by an item is visible to the NEXT item on the same serial queue": that order exists only while the items of a serial queue (and of
+    # the serial queue it targets) do not overlap - the width-1 => barrier plumbing of the waiting submission forms and the drain's target re-check are
+    # necessary for it (shared with C02 / C03)
+    if want("C02-SB5"):
+        from . import C02
+        C02.rule_barrier_flag(rep, prog, q)
+    if want("C03-MP7"):
+        C03.rule_MP7(rep, prog, q)
 
 
 MANIFEST = {
